@@ -95,7 +95,7 @@ def run(ck):
         try:
             f = call(c, mgr, args)
             ev["res"] = "ok"
-            ev["built"] = term_io.export(f)
+            ev["built"] = term_io.export_result(f)
             ev["rty"] = term_io.export_type(f.get_type())
             ck.nontrivial(term_io.term_key(ev["built"]))
         except Exception as ex:
